@@ -68,13 +68,53 @@ class Spec:
     def __hash__(self): return hash(self.key())
     def __repr__(self): return f'{self.fn}({", ".join(map(repr, self.args))})'
 
+ELEM = z3.IntSort()
+def _set_const(spec): return z3.Const('set!' + repr(spec.key() if isinstance(spec, Spec) else spec), z3.SetSort(ELEM))
+def _elem(x):
+    if isinstance(x, ParamV): return x.key
+    if isinstance(x, z3.ArithRef): return x
+    raise Outside(f'set element {type(x).__name__}')
 class SetE(SymVal):
-    "a frozenset-valued spec expression: union of parts"
-    def __init__(self, parts): self.parts = list(parts)
+    """a frozenset-valued spec expression: union of parts (whole sub-sets named by a Spec, or single elements); `minus` are
+    single elements removed afterwards.  z3(): the same as a z3 set, for code that asks about emptiness or overlap."""
+    def __init__(self, parts, minus=()): self.parts = list(parts); self.minus = list(minus)
     def norm(self): return frozenset(p.key() if isinstance(p, Spec) else p for p in self.parts)
-    def sym_iter(self, it): return [SegTok(p) for p in self.parts]
+    def sym_iter(self, it):
+        if self.minus: raise Outside('iteration of a set difference')
+        return [SegTok(p) for p in self.parts]
     def sym_frozenset(self, it): return self
-    def sym_truth(self, it): raise Outside('truth of a symbolic set')
+    def z3(self):
+        e = z3.EmptySet(ELEM)
+        for p_ in self.parts: e = z3.SetUnion(e, _set_const(p_)) if isinstance(p_, Spec) else z3.SetAdd(e, _elem(p_))
+        for m in self.minus: e = z3.SetDel(e, _elem(m))
+        return e
+    def sym_truth(self, it):
+        if not self.parts: return False
+        return it.path.fork(self.z3() != z3.EmptySet(ELEM))
+    @staticmethod
+    def of(it, x):
+        if isinstance(x, SetE): return x
+        if isinstance(x, (set, frozenset, list, tuple)): return SetE(list(x))
+        raise Outside(f'set operand {type(x).__name__}')
+    def sym_binop(self, it, op, other, reflected):
+        o = SetE.of(it, other)
+        if op == 'BitOr':
+            if self.minus or o.minus: raise Outside('union of set differences')
+            a, b = (o, self) if reflected else (self, o)
+            return SetE(a.parts + [p_ for p_ in b.parts if not any(p_ is q or (isinstance(p_, Spec) and p_ == q) for q in a.parts)])
+        if op == 'Sub' and not reflected and all(not isinstance(p_, Spec) for p_ in o.parts) and not o.minus:
+            return SetE(self.parts, self.minus + o.parts)
+        raise Outside(f'set {op}')
+    def sym_getattr(self, it, name):
+        if name == 'isdisjoint':
+            return Contract(lambda it, other: it.path.fork(z3.SetIntersect(self.z3(), SetE.of(it, other).z3()) == z3.EmptySet(ELEM)), 'frozenset.isdisjoint')
+        if name == 'union':
+            def union(it, *others):
+                r = self
+                for o in others: r = r.sym_binop(it, 'BitOr', o, False)
+                return r
+            return Contract(union, 'frozenset.union')
+        raise Outside(f'frozenset.{name}')
 class SeqE(SymVal):
     "a tuple-valued spec expression: concatenation of parts (single items or whole sub-sequences)"
     def __init__(self, parts): self.parts = list(parts)
